@@ -279,7 +279,7 @@ def run(tier, rep):
         rep.tlc("LazyCompile[head, 3 threads]", r3)
     jobs, info = build_jobs(tier, rnd)
     # executed and validated in slices (bounded memory in the thorough tier)
-    verdicts, st, kept, _first = C.run_sliced(one_run, jobs, "LazyCompileTrace", slice_size=12000, chunk=8,
+    verdicts, st, kept, _first = C.run_sliced(one_run, jobs, "LazyCompileTrace", slice_size=4000, chunk=8,
                                               trace_of=lambda x: x[0],
                                               keep=lambda x: (sum(1 for e in x[0]["ev"] if e["ev"] == "getrules"), len(x[0]["ev"])),
                                               shard=1500)
